@@ -934,6 +934,25 @@ class Rewriter:
         cb = 'cb_try_fill' if c.get('cb') == 'try' else 'cb_fill'
         if c.get('strip_nested'):
             b = self.strip_nested_fns(b)
+        if c.get('fwd_closure'):
+            # R38: thin wrappers of the fill workers.  The worker's contract speaks about "the initialiser"; the wrapper must hand on,
+            # textually, the closure that defines what it documents (anything else is not decided here), the length argument is free text
+            want = re.sub(r'\s+', ' ', c['fwd_closure'].replace('~', ' ')).strip()
+            def _fw(m_, a):
+                got = re.sub(r'\s+', ' ', ', '.join(a[1:])).strip()
+                if got != want:
+                    raise ExtractError('R38: the closure handed to %s is `%s`, not `%s`' % (m_.group(0), got[:80], want))
+                return '%s(w, fs, %s)' % (m_.group(0).rstrip('(').rstrip(), a[0])
+            b = self.map_calls(b, r'\bself\.(?:try_alloc_slice_fill_with|alloc_slice_try_fill_with|alloc_slice_fill_with)', _fw, 'R38:closure-is-the-initialiser')
+            b = self.sub('R38:exact-iter', r'(?m)^\s*let mut iter = iter\.into_iter\(\);\s*$', '', b)
+            return b
+        if c.get('fwd_str'):
+            # R38: alloc_str / try_alloc_str: the text is its bytes; `from_utf8_unchecked_mut` is the identity on them
+            b = self.sub('R38:bytes', r'\bsrc\.as_bytes\(\)', 'src', b)
+            b = self.map_calls(b, r'\bself\.(?:try_alloc_slice_copy|alloc_slice_copy)', lambda m_, a: '%s(w, fs, %s)' % (m_.group(0).rstrip('(').rstrip(), a[0]), 'R12:thread-world')
+            b = self.map_calls(b, r'(?<![\w:])str::from_utf8_unchecked_mut', lambda m_, a: a[0], 'R38:utf8-identity')
+            b = self.sub('R13:question-mark', r'let (\w+) = ([^;?]+)\?;', r'let \1 = match \2 { Ok(v__) => v__, Err(e__) => { return Err(e__); } };', b)
+            return b
         # value allocation (alloc_with family): one element, initialiser `f()` takes no index
         b = self.sub('R28:typed-cast', r'\s+as \*mut T\b', '', b)
         b = self.sub('R28:callback', r'(?<![\w.])f\(\)', 'self.%s(w, fs, 0, Ghost(ptr), Ghost(rsv), Ghost(blk))' % cb, b)
